@@ -45,7 +45,8 @@ type Global struct {
 	tableByFn      map[string]*TableFunc
 	repo           string
 	verifDir       string
-	contractSource map[string]string   // pkg -> path used
+	contractSource map[string]string // pkg -> path used
+	lockedAnchors  map[string]AnchorLock
 	lockedLocals   map[string][]string // function key -> "name|type" of every variable it declares, in source order, when the lock was written
 	renameCache    map[string]map[string]types.Object
 }
@@ -54,6 +55,7 @@ func loadAll(repo, verifDir string) (*Global, error) {
 	g := &Global{pkgs: map[string]*packages.Package{}, funcs: map[string]*FuncInfo{}, funcByObj: map[*types.Func]*FuncInfo{}, tableByFn: map[string]*TableFunc{}, repo: repo, verifDir: verifDir, contractSource: map[string]string{}}
 	g.fset = token.NewFileSet()
 	readJSON(filepath.Join(verifDir, "locals.lock.json"), &g.lockedLocals)
+	readJSON(filepath.Join(verifDir, "anchors.lock.json"), &g.lockedAnchors)
 	g.renameCache = map[string]map[string]types.Object{}
 	cfg := &packages.Config{Mode: packages.NeedName | packages.NeedFiles | packages.NeedSyntax | packages.NeedTypes | packages.NeedTypesInfo | packages.NeedImports | packages.NeedDeps,
 		Dir: repo, Fset: g.fset, BuildFlags: []string{"-tags=verif"},
@@ -435,6 +437,11 @@ func (x *Exec) prepass() {
 		if ce, ok := anchorNode.(*ast.CallExpr); ok {
 			x.anchorCalls[a] = ce
 		}
+		var fpn ast.Node = anchorNode
+		if fpn == nil && len(stmtStack) > 0 {
+			fpn = stmtStack[len(stmtStack)-1]
+		}
+		defer func() { x.noteAnchor(kind, anchorCount[kind], fpn) }()
 		for i := len(stmtStack) - 1; i >= 0; i-- {
 			switch stmtStack[i].(type) {
 			case *ast.AssignStmt, *ast.ExprStmt, *ast.ReturnStmt, *ast.SendStmt, *ast.IncDecStmt, *ast.DeclStmt, *ast.GoStmt, *ast.DeferStmt:
@@ -454,11 +461,13 @@ func (x *Exec) prepass() {
 		bump := func(kind string) {
 			counts[kind]++
 			x.ord[n] = counts[kind]
+			x.siteRecs = append(x.siteRecs, anchorRec{kind, counts[kind], n})
 		}
 		switch nd := n.(type) {
 		case *ast.ForStmt, *ast.RangeStmt:
 			loopN++
 			x.loopOrd[n] = loopN
+			x.loopNodes = append(x.loopNodes, n)
 		case *ast.IndexExpr:
 			bump("index")
 		case *ast.SliceExpr:
@@ -509,6 +518,7 @@ func (x *Exec) prepass() {
 								k := "assign:" + id.Name
 								anchorCount[k]++
 								x.anchors[s] = append(x.anchors[s], fmt.Sprintf("%s#%d", k, anchorCount[k]))
+								x.noteAnchor(k, anchorCount[k], as)
 								// alias under the name the variable had when the lock was written
 								obj := info.Defs[id]
 								if obj == nil {
@@ -524,9 +534,11 @@ func (x *Exec) prepass() {
 					case *ast.SwitchStmt:
 						anchorCount["switch"]++
 						x.anchors[s] = append(x.anchors[s], fmt.Sprintf("switch#%d", anchorCount["switch"]))
+						x.noteAnchor("switch", anchorCount["switch"], headerOf(m))
 					case *ast.IfStmt:
 						anchorCount["if"]++
 						x.anchors[s] = append(x.anchors[s], fmt.Sprintf("if#%d", anchorCount["if"]))
+						x.noteAnchor("if", anchorCount["if"], headerOf(m))
 					}
 					walk(m)
 					stmtStack = stmtStack[:len(stmtStack)-1]
@@ -563,6 +575,264 @@ func (x *Exec) prepass() {
 		}
 	}
 	walk(x.fi.Body)
+	x.stabiliseOrdinals()
+}
+
+// headerOf: the part of a compound statement that identifies it (condition / tag, init), not its body.
+func headerOf(n ast.Node) ast.Node {
+	switch s := n.(type) {
+	case *ast.IfStmt:
+		return &ast.IfStmt{Init: s.Init, Cond: s.Cond, Body: &ast.BlockStmt{}}
+	case *ast.SwitchStmt:
+		return &ast.SwitchStmt{Init: s.Init, Tag: s.Tag, Body: &ast.BlockStmt{}}
+	case *ast.ForStmt:
+		return &ast.ForStmt{Init: s.Init, Cond: s.Cond, Post: s.Post, Body: &ast.BlockStmt{}}
+	case *ast.RangeStmt:
+		return &ast.RangeStmt{Key: s.Key, Value: s.Value, Tok: s.Tok, X: s.X, Body: &ast.BlockStmt{}}
+	}
+	return n
+}
+
+type anchorRec struct {
+	kind string
+	k    int
+	node ast.Node
+}
+
+func (x *Exec) noteAnchor(kind string, k int, n ast.Node) {
+	x.anchorRecs = append(x.anchorRecs, anchorRec{kind, k, n})
+}
+
+// fingerprint: a structural rendering of a node in which the function's own variables appear under the names they had
+// when the lock was written (so that a pure rename does not change it).
+func (x *Exec) fingerprint(n ast.Node) string {
+	if n == nil {
+		return ""
+	}
+	info := x.fi.Pkg.TypesInfo
+	on := x.g.oldNames(x.fi)
+	var b strings.Builder
+	ast.Inspect(n, func(m ast.Node) bool {
+		switch v := m.(type) {
+		case nil:
+			b.WriteString(")")
+			return true
+		case *ast.Ident:
+			name := v.Name
+			obj := info.Defs[v]
+			if obj == nil {
+				obj = info.Uses[v]
+			}
+			if o, ok := on[obj]; ok {
+				name = o
+			}
+			b.WriteString("(" + name)
+		case *ast.BasicLit:
+			b.WriteString("(" + v.Value)
+		case *ast.BinaryExpr:
+			b.WriteString("(" + v.Op.String())
+		case *ast.UnaryExpr:
+			b.WriteString("(" + v.Op.String())
+		case *ast.AssignStmt:
+			b.WriteString("(" + v.Tok.String())
+		case *ast.IncDecStmt:
+			b.WriteString("(" + v.Tok.String())
+		case *ast.BranchStmt:
+			b.WriteString("(" + v.Tok.String())
+		default:
+			b.WriteString(fmt.Sprintf("(%T", m))
+		}
+		return true
+	})
+	return b.String()
+}
+
+// AnchorLock: fingerprints of a function's loops and anchored statements, in source order, when the lock was written.
+type AnchorLock struct {
+	Loops []string            `json:"loops"`
+	Kinds map[string][]string `json:"kinds"`
+	Sites map[string][]string `json:"sites"` // index / slice / div / call:… expressions (ordinals of site-derived obligations)
+}
+
+func (x *Exec) currentAnchorLock() AnchorLock {
+	al := AnchorLock{Kinds: map[string][]string{}, Sites: map[string][]string{}}
+	for _, r := range x.siteRecs {
+		al.Sites[r.kind] = append(al.Sites[r.kind], x.fingerprint(headerOf(r.node)))
+	}
+	for _, n := range x.loopNodes {
+		al.Loops = append(al.Loops, x.fingerprint(headerOf(n)))
+	}
+	for _, r := range x.anchorRecs {
+		al.Kinds[r.kind] = append(al.Kinds[r.kind], x.fingerprint(r.node))
+	}
+	return al
+}
+
+// lcsMap aligns cur with rec (longest common subsequence): result[i] = index in rec matched with cur[i], or -1.
+func lcsMap(rec, cur []string) []int {
+	n, m := len(rec), len(cur)
+	dp := make([][]int, n+1)
+	for i := range dp {
+		dp[i] = make([]int, m+1)
+	}
+	for i := n - 1; i >= 0; i-- {
+		for j := m - 1; j >= 0; j-- {
+			if rec[i] == cur[j] {
+				dp[i][j] = dp[i+1][j+1] + 1
+			} else if dp[i+1][j] >= dp[i][j+1] {
+				dp[i][j] = dp[i+1][j]
+			} else {
+				dp[i][j] = dp[i][j+1]
+			}
+		}
+	}
+	out := make([]int, m)
+	for j := range out {
+		out[j] = -1
+	}
+	i, j := 0, 0
+	for i < n && j < m {
+		if rec[i] == cur[j] {
+			out[j] = i
+			i++
+			j++
+		} else if dp[i+1][j] >= dp[i][j+1] {
+			i++
+		} else {
+			j++
+		}
+	}
+	// items that changed in place: inside every gap between two matched pairs, when as many recorded items as current
+	// items are unmatched, they are paired in order (a statement that was edited keeps its ordinal)
+	pi, pj := 0, 0 // start of the current gap in rec / cur
+	flush := func(ei, ej int) {
+		if ei-pi == ej-pj {
+			for k := 0; k < ej-pj; k++ {
+				out[pj+k] = pi + k
+			}
+		}
+	}
+	for j := 0; j < m; j++ {
+		if out[j] >= 0 {
+			flush(out[j], j)
+			pi, pj = out[j]+1, j+1
+		}
+	}
+	flush(n, m)
+	return out
+}
+
+// stabiliseOrdinals renumbers loops and statement anchors so that those present when the lock was written keep the
+// ordinals they had then (contracts and obligation names refer to them); loops/statements added since get fresh ordinals
+// after the recorded ones. Nothing happens when the function's fingerprints are unchanged or were never recorded.
+func (x *Exec) stabiliseOrdinals() {
+	rec, ok := x.g.lockedAnchors[x.fi.Key]
+	if !ok {
+		return
+	}
+	cur := x.currentAnchorLock()
+	// loops
+	same := len(rec.Loops) == len(cur.Loops)
+	for i := 0; same && i < len(rec.Loops); i++ {
+		same = rec.Loops[i] == cur.Loops[i]
+	}
+	if !same {
+		mp := lcsMap(rec.Loops, cur.Loops)
+		next := len(rec.Loops)
+		for j, n := range x.loopNodes {
+			if mp[j] >= 0 {
+				x.loopOrd[n] = mp[j] + 1
+			} else {
+				next++
+				x.loopOrd[n] = next
+			}
+		}
+		x.c.notes[x.fi.Key+": loops were added, removed or reordered since the lock was written; unchanged loops keep their recorded ordinals"] = true
+	}
+	// expression sites (ordinals in the names of site-derived obligations)
+	siteByKind := map[string][]int{}
+	for idx, r := range x.siteRecs {
+		siteByKind[r.kind] = append(siteByKind[r.kind], idx)
+	}
+	for kind, idxs := range siteByKind {
+		rk := rec.Sites[kind]
+		ck := cur.Sites[kind]
+		eq := len(rk) == len(ck)
+		for i := 0; eq && i < len(rk); i++ {
+			eq = rk[i] == ck[i]
+		}
+		if eq || rec.Sites == nil {
+			continue
+		}
+		mp := lcsMap(rk, ck)
+		next := len(rk)
+		for pos, idx := range idxs {
+			r := x.siteRecs[idx]
+			if pos < len(mp) && mp[pos] >= 0 {
+				x.ord[r.node] = mp[pos] + 1
+			} else {
+				next++
+				x.ord[r.node] = next
+			}
+		}
+	}
+	// anchors
+	rename := map[string]string{}
+	byKind := map[string][]int{}
+	for idx, r := range x.anchorRecs {
+		byKind[r.kind] = append(byKind[r.kind], idx)
+	}
+	changed := false
+	for kind, idxs := range byKind {
+		rk := rec.Kinds[kind]
+		ck := cur.Kinds[kind]
+		eq := len(rk) == len(ck)
+		for i := 0; eq && i < len(rk); i++ {
+			eq = rk[i] == ck[i]
+		}
+		if eq {
+			continue
+		}
+		changed = true
+		mp := lcsMap(rk, ck)
+		next := len(rk)
+		for pos, idx := range idxs {
+			r := x.anchorRecs[idx]
+			oldName := fmt.Sprintf("%s#%d", kind, r.k)
+			var newK int
+			if pos < len(mp) && mp[pos] >= 0 {
+				newK = mp[pos] + 1
+			} else {
+				next++
+				newK = next
+			}
+			rename[oldName] = fmt.Sprintf("%s#%d", kind, newK)
+		}
+	}
+	if !changed {
+		return
+	}
+	for st, names := range x.anchors {
+		out := make([]string, len(names))
+		for i, nm := range names {
+			if nn, ok := rename[nm]; ok {
+				out[i] = nn
+			} else {
+				out[i] = nm
+			}
+		}
+		x.anchors[st] = out
+	}
+	calls := map[string]*ast.CallExpr{}
+	for nm, ce := range x.anchorCalls {
+		if nn, ok := rename[nm]; ok {
+			calls[nn] = ce
+		} else {
+			calls[nm] = ce
+		}
+	}
+	x.anchorCalls = calls
+	x.c.notes[x.fi.Key+": statements were added, removed or reordered since the lock was written; unchanged anchors keep their recorded ordinals"] = true
 }
 
 func (x *Exec) run() {
